@@ -4,7 +4,7 @@ from collections import Counter
 import common, docrun, gen, pool, docs, e2e, drv, vocab
 
 THEOREMS = ["Cost.costs_append", "Cost.costs_flag", "Cost.saving_flag", "Cost.selection_frame", "Cost.selection_names", "Cost.gasAcc_le_static",
-            "Cost.gasAcc_eq_static"]
+            "Cost.gasAcc_eq_static", "Json.no_new_push0_when_disabled", "Json.normP0_enabled"]
 
 
 def plain_items(text):
@@ -30,7 +30,7 @@ def plain_items(text):
 def run(tier):
     sd = common.seed()
     rng = random.Random(sd * 389 + 29)
-    po = common.proof_obligations("GasolVerif.Proofs.FlagSound", THEOREMS)
+    po = common.proof_obligations("GasolVerif.Proofs.FlagSound,GasolVerif.Proofs.JsonItemSound", THEOREMS)
     violations = [{"kind": "broken-proof-obligation", "what": b, "no_failing_input": True, "input": b} for b in po["broken"]]
     c = Counter()
     # (a) documents with PUSH0 disabled / enabled
